@@ -199,6 +199,23 @@ def gen_exprs(tier):
             st += r["distinct"]
             tr += r["generated"]
         recs += C.tlc_prints(r["out"], "EXPR")
+    # every depth-1 integer expression over all magnitudes (decimal, unsuffixed): the unary forms - casts to every
+    # builtin type, unary operators, sizeof, parentheses - are all kept (it is the operand's magnitude against
+    # the cast's width that matters), the binary / ternary forms are sampled
+    r = tlc_back("Gen_MacroExpr.tla", "Gen_MacroExpr_d1int.cfg", "Gen_MacroExpr_d1int.cfg", workers=4, timeout=900)
+    if not C.tlc_ok(r):
+        raise C.ToolError("Gen_MacroExpr d1int failed: " + r["out"][-1200:])
+    st += r["distinct"]
+    tr += r["generated"]
+    d1 = C.tlc_prints(r["out"], "EXPR")
+    d1.sort(key=json.dumps)
+    unary = [e for e in d1 if e["seq"][0][0] not in ("bin", "tern", "int", "chr")]
+    rest = [e for e in d1 if e["seq"][0][0] in ("bin", "tern")]
+    import random
+    rnd = random.Random(C.seed() * 7 + 5)
+    seen = {json.dumps(e["seq"]) for e in recs}
+    recs += [e for e in unary + rnd.sample(rest, min(len(rest), 3000 if tier == "thorough" else 300))
+             if json.dumps(e["seq"]) not in seen]
     return recs, st, tr
 
 
